@@ -641,6 +641,15 @@ func (u *Units) checkIndex(fn *ssa.Function, x *ssa.IndexAddr) {
 			want = uAbs
 		}
 		if !ok {
+			// a row offset shifted by something other than 6 (or divided by something other than 64)
+			// addresses another word than the row's
+			if bo, isB := strip(x.Index).(*ssa.BinOp); isB && (bo.Op == token.SHR || bo.Op == token.QUO) {
+				if c, isC := constInt(bo.Y); isC && ((bo.Op == token.SHR && c != 6) || (bo.Op == token.QUO && c != 64)) {
+					if k := u.val(bo.X); k == uAbs || k == uRel {
+						u.sink(fn, x, "word of "+bk.String()+" for a row (offset>>6)", uWordBlk, uTop)
+					}
+				}
+			}
 			// word-level iteration over the bitmap (e.g. `for i := range tmpMap`): not a row access
 			return
 		}
